@@ -90,6 +90,12 @@ CLAIMS.update({
             "constants are finite ints/floats; deferred-equality nodes (._eq/._neq) are a listed known finding; expression-task-only alphabets (dump covers expression tasks)"),
 })
 
+CLAIMS.update({
+    "C20": (H, "model_checking", "exhaustive enumeration of configurations (build mode x hash seed) x bounded program corpora executed on the implementation; transcript equality",
+            "every manager history up to the depth bound over two alphabets (nested siblings; every node class, LinearKnob), every term of the C04/C11 expression corpus and all ordered pairs of an adversarial path family are executed in a separate interpreter for every configuration in {extension compiled from the working tree, pure-Python fallback} x PYTHONHASHSEED range; canonical transcripts (contents after every operation, exception types, definitions, dump text, pickle copy and follow-up; printed form, typed value, dependencies, equality and hash consistency) must be identical",
+            "exceptions by type; hash values themselves not compared; signed zeros not distinguished (Cython 3.3 object multiply returns +0.0 for 0.0 * -3, reproduced outside xdeps); histories whose order the model finds under-determined by the recorded sibling-cycle finding are excluded statically and counted"),
+})
+
 NOT_YET = "check under construction in this session; not yet claimed"
 
 
